@@ -289,6 +289,25 @@ int main(int argc, char **argv)
         }
         rep().stat("cases_with_teams_around_the_processor_count", added);
     }
+    {
+        // batch sizes far above the column count ("any relation to num_cols"): one batch, and nothing may be sized by batch_size
+        long long added = 0;
+        for (int b = 0; b < NB; b++)
+        {
+#ifndef __AVX512__
+            if (b == B_AVX512) continue;
+#endif
+            for (size_t bs : {(size_t)1000, (size_t)1 << 16, (size_t)1 << 20, (size_t)1 << 22, (size_t)1 << 31, (size_t)1 << 40})
+                for (size_t r : {(size_t)2, (size_t)4})
+                    for (size_t cc : {(size_t)3, (size_t)9})
+                        for (size_t d : {(size_t)1, (size_t)3})
+                        {
+                            cases.push_back({b, r, cc, d, (int)(1 + (bs >> 16) % 3), bs, (int)((r + cc) % 3), 0});
+                            added++;
+                        }
+        }
+        rep().stat("cases_with_huge_batch_size", added);
+    }
     if (!args.num("light", 0))
     {
         // called from inside a parallel region of the caller (run_case_outer)
